@@ -62,10 +62,11 @@ fn c13_minecraft_string_length() {
     core::mem::forget(r);
 }
 
-/// GameSpy 1: `maxplayers` (any u32) never sizes an allocation beyond the limit.
+/// GameSpy 1: neither `maxplayers` (any u32) nor an extreme `numplayers` sizes an
+/// allocation beyond the limit.
 #[cfg(kani)]
 #[kani::proof]
-#[kani::unwind(6)]
+#[kani::unwind(14)]
 #[kani::stub(alloc::fmt::format, stub_format)]
 #[kani::stub(core::slice::memchr::memchr, stub_memchr)]
 #[kani::stub(alloc::vec::Vec::with_capacity, stub_with_capacity_checked)]
@@ -73,6 +74,8 @@ fn c13_gamespy1_maxplayers() {
     let max: u32 = kani::any();
     let mut m: gamedig::verif_hook::collections::HashMap<String, String> =
         gamedig::verif_hook::collections::HashMap::new();
+    // the other count a server reports: an extreme value (no player is listed)
+    m.insert("numplayers".to_string(), "4000000000".to_string());
     let r = gamedig::protocols::gamespy::one::verif_unit::extract_players(&mut m, max);
     core::mem::forget((r, m));
 }
